@@ -127,6 +127,9 @@ def c18(tier):
                 # every slice form written compactly and with blanks / signs / leading zeros (Gen_Slice renders both)
                 dict(kind='gen', module='Gen_Slice', label='slice-spellings', props='C18', opts='allspell=1', timeout=600,
                      constants=dict(Rng=2, MaxN=3, Bigs=True, Forms='all'), invariants=['Emit']),
+                # bounds up to 9: the verbose spelling writes them +08, -09 (a leading zero is not an octal prefix)
+                dict(kind='gen', module='Gen_Slice', label='slice-spellings-0..9', props='C18', opts='allspell=1', timeout=600,
+                     constants=dict(Rng=9, MaxN=1, Bigs=False, Forms='plain'), invariants=['Emit']),
                 dict(kind='gen', module='Gen_Keys', label='quote-styles-agree', props='C18', timeout=600,
                      constants=dict(MaxAtoms=2, Alphabet='reduced'), invariants=['Emit'])]
     return [sel('spellings', 'C18', SEL(2, 'pairs', 'small', spell='all'), ['Emit'], timeout=3600),
